@@ -634,6 +634,11 @@ impl Suite for C03Kernel {
                     "gt" => v > k,
                     _ => v >= k,
                 };
+                // does the exact translation leave i64?  (dev profile: panic; release: the constant wraps)
+                let overflows = {
+                    let d = k as i128 - offset as i128;
+                    d < i64::MIN as i128 || d > i64::MAX as i128
+                };
                 let (impl_out, oracle) = match enc {
                     None => (Sx::none(), Some(("panic:encode_int:constant-minus-offset-overflows".to_string(), format!("encode_int({}) with offset {} overflows", k, offset)))),
                     Some(ek) => {
@@ -645,14 +650,20 @@ impl Suite for C03Kernel {
                         (
                             Sx::some(Sx::boolean(res)),
                             if res != truth {
-                                Some(("mismatch:encoded-cmp".to_string(), format!("{} {} {} on the encoding (offset {}) gave {}", v, op, k, offset, res)))
+                                if overflows {
+                                    Some(("mismatch:encoded-cmp:wrapped-constant".to_string(), format!("{} {} {} with the constant wrapped by encode_int (offset {}) gave {}", v, op, k, offset, res)))
+                                } else {
+                                    Some(("mismatch:encoded-cmp".to_string(), format!("{} {} {} on the encoding (offset {}) gave {}", v, op, k, offset, res)))
+                                }
                             } else {
                                 None
                             },
                         )
                     }
                 };
-                vec![outcome("encoded_cmp", Sx::l(vec![it[1].clone(), it[3].clone(), it[4].clone(), it[5].clone()]), impl_out, oracle, true)]
+                // release profile: the model entry that wraps like the code does
+                let entry = if overflows && enc.is_some() { "encoded_cmp_wrapping" } else { "encoded_cmp" };
+                vec![outcome(entry, Sx::l(vec![it[1].clone(), it[3].clone(), it[4].clone(), it[5].clone()]), impl_out, oracle, true)]
             }
             "dict" => {
                 let dict: Vec<Vec<u8>> = it[1].items().iter().map(|s| crate::val::unhex(s.atom())).collect();
